@@ -328,4 +328,12 @@ theorem validateFields_spec (O : Oracles) (c : ClassOpts) (defaults kw : List (S
       exact Sp.bind (validate_spec O f v) h2
 end
 
+
+theorem C02_construct_spec (O : Oracles) (c : ClassOpts) (fields : List (String × FieldDecl))
+    (defaults kw : List (String × PyVal)) :
+    Sp (admitsKw O (.struct c fields defaults) kw) (normKw O (.struct c fields defaults) kw)
+      (construct O (.struct c fields defaults) kw) := by
+  simp only [admitsKw, normKw, construct]
+  exact vConstruct_spec c _ kw (validateFields_spec O c defaults kw fields)
+
 end Typedpy
